@@ -885,3 +885,164 @@ func H_C12_BelongsTo(shape int) {
 	}
 	verifrt.Observe("log", s.Kinds())
 }
+
+// ---- many to many, operations on a slice of two owner records (Append and
+// Replace take one value per record, Delete and Clear apply to every record)
+
+func N_C12_SliceOwners(tier int) int {
+	if tier > 0 {
+		return 3
+	}
+	return 2
+}
+
+func H_C12_SliceOwners(shape int) {
+	nops := 1 + shape
+	fullInit := shape == 0
+	mdb := NewMemDB()
+	speakers := mdb.AddTable("speakers", []string{"id", "name"}, []string{"id"})
+	speakers.AddRow(1, "s")
+	speakers.AddRow(2, "t")
+	speakers.AddRow(3, "u")
+	langs := mdb.AddTable("langs", []string{"id", "name"}, []string{"id"})
+	join := mdb.AddTable("speaker_langs", []string{"speakerid", "langid"}, []string{"speakerid", "langid"})
+	model := &c12Model{}
+	sps := []Speaker{{ID: 1, Name: "s"}, {ID: 2, Name: "t"}}
+	for k, x := range []int{2, 3} {
+		langs.AddRow(x, "e")
+		model.rows = append(model.rows, c12Row{id: x})
+		// linked to speaker 1, 2 (the records operated on) and/or 3 (a bystander): bits 1, 2, 4
+		l := []int{5, 2}[k]
+		if fullInit {
+			l = verifrt.Concretize(verifrt.Intn("linked"+string([]byte{byte('1' + k)}), 0, 7), 0, 7)
+		}
+		for o := 1; o <= 3; o++ {
+			if l&(1<<uint(o-1)) != 0 {
+				join.AddRow(o, x)
+				model.links = append(model.links, [2]int{o, x})
+				if o <= 2 {
+					sps[o-1].Langs = append(sps[o-1].Langs, Lang{ID: uint(x), Name: "e"})
+				}
+			}
+		}
+	}
+	mdb.Snapshot()
+	s := NewStore()
+	s.OnExecE = mdb.Exec
+	s.OnQuery = mdb.Query
+	db := openReal(stubDialector{nullDefault: true}, s, nil)
+	var kinds []int
+	defer func() { mdb.Dump(c12Label("many2many-slice", kinds, false)) }()
+	for k := 0; k < nops; k++ {
+		tag := "op" + string([]byte{byte('0' + k)})
+		kind := verifrt.Concretize(verifrt.Intn(tag+"_kind", 0, 3), 0, 3)
+		kinds = append(kinds, kind)
+		nt := 0
+		switch kind {
+		case 0, 1:
+			nt = 2 // one value per record
+		case 2:
+			nt = verifrt.Concretize(verifrt.Intn(tag+"_targets", 1, 2), 1, 2)
+		}
+		vals := make([]*Lang, nt)
+		args := make([]interface{}, nt)
+		for j := range vals {
+			if kind != 2 && verifrt.Bool(tag+"_new"+string([]byte{byte('0' + j)})) {
+				vals[j] = &Lang{Name: "n"}
+			} else {
+				vals[j] = &Lang{ID: uint(verifrt.Intn(tag+"_id"+string([]byte{byte('0' + j)}), 2, 4)), Name: "t"}
+			}
+			args[j] = vals[j]
+		}
+		label := c12Label("many2many-slice", kinds, false)
+		verifrt.Tag(label)
+		a := db.Model(&sps).Association("Langs")
+		var err error
+		switch kind {
+		case 0:
+			err = a.Append(args...)
+		case 1:
+			err = a.Replace(args...)
+		case 2:
+			err = a.Delete(args...)
+		case 3:
+			err = a.Clear()
+		}
+		verifrt.Assert(err == nil, "C12.error:"+label)
+		var ids []int
+		for _, v := range vals {
+			verifrt.Assert(v.ID != 0, "C12.target-without-key:"+label)
+			ids = append(ids, int(v.ID))
+		}
+		drop := func(owner int, keep []int) {
+			var nl [][2]int
+			for _, l := range model.links {
+				if l[0] != owner || containsInt(keep, l[1]) {
+					nl = append(nl, l)
+				}
+			}
+			model.links = nl
+		}
+		switch kind {
+		case 0, 1:
+			for o := 1; o <= 2; o++ {
+				id := ids[o-1]
+				if kind == 1 {
+					drop(o, []int{id})
+				}
+				if model.find(id) < 0 {
+					model.rows = append(model.rows, c12Row{id: id})
+				}
+				if model.hasLink(o, id) < 0 {
+					model.links = append(model.links, [2]int{o, id})
+				}
+			}
+		case 2:
+			for o := 1; o <= 2; o++ {
+				for _, id := range ids {
+					if i := model.hasLink(o, id); i >= 0 {
+						model.links = append(model.links[:i:i], model.links[i+1:]...)
+					}
+				}
+			}
+		case 3:
+			drop(1, nil)
+			drop(2, nil)
+		}
+		verifrt.Reach("op-applied")
+		c12SameRows(langs, "id", "", model, label)
+		verifrt.Assert(len(join.rows) == len(model.links), "C12.stored-links:"+label)
+		si, li := join.colIdx("speakerid"), join.colIdx("langid")
+		for _, r := range join.rows {
+			found := false
+			for _, l := range model.links {
+				found = verifrt.Or(found, verifrt.And(r[si].i == l[0], r[li].i == l[1]))
+			}
+			verifrt.Assert(found, "C12.stored-links:"+label)
+		}
+		// Count over the slice reports the links of its records
+		total := 0
+		for _, l := range model.links {
+			if l[0] <= 2 {
+				total++
+			}
+		}
+		n := db.Model(&[]Speaker{{ID: 1}, {ID: 2}}).Association("Langs").Count()
+		verifrt.Assert(n == int64(total), "C12.count:"+label)
+		// the in-memory relation field of each record
+		for o := 1; o <= 2; o++ {
+			var want, mem []int
+			for _, l := range model.links {
+				if l[0] == o {
+					want = append(want, l[1])
+				}
+			}
+			for _, p := range sps[o-1].Langs {
+				mem = append(mem, int(p.ID))
+			}
+			c12SameSet(mem, want, "C12.in-memory:"+label)
+		}
+		verifrt.Observe("links", total)
+	}
+	verifrt.Observe("log", s.Kinds())
+}
